@@ -106,21 +106,41 @@ def run_job(job):
             if not sub:
                 continue
             cmds.append(('rset', ast, ptxt, ic, None))
+            cmds.append(('rstr', ast, ptxt, ic, None))
             for l, f in sub:
                 cmds.append(('find', ast, ptxt, f, l, ng))
+                if l.endswith('\n'):      # (rstr_find is only ever handed buffer lines, which end in a newline; its literal path relies on that)
+                    cmds.append(('rfind', ast, ptxt, f, l, ng))      # the same question through the editor's own entry point
     text = ['budget 2000000']
     for c in cmds:
         if c[0] == 'rset':
             text.append('rset %d 1 %s' % (c[3], hexs(c[2])))
+        elif c[0] == 'rstr':
+            text.append('rstr %d %s' % (c[3], hexs(c[2])))
         else:
-            text.append('find %d %d %s' % (c[3] & 14, c[5] + 2, hexs(c[4])))
+            text.append('%s %d %d %s' % (c[0], c[3] & 14, c[5] + 2, hexs(c[4])))
     r = common.run([exe], ('\n'.join(text) + '\n').encode(), env=common.base_env('/tmp'), timeout=900)
     out = [l for l in r.out.decode('ascii', 'replace').split('\n') if l][1:]
     stats = new_stats()
     bad = []
     n = 0
     compiled = True
+    last = None
     for c, o in zip(cmds, out):
+        if c[0] == 'rstr':
+            continue
+        if c[0] == 'rfind':
+            # what searches, :s and :g are handed: the same verdict and the same span as the set matcher gave
+            f = o.split()
+            try:
+                ridx, rcut, rg = int(f[0]), int(f[2]), [int(x) for x in f[6:8]]
+            except Exception:
+                continue
+            if last is not None and not last[1] and not rcut and ((ridx < 0) != (last[0] < 0) or (ridx >= 0 and rg != last[2][:2])):
+                bad.append(('editor-entry-differs', 'pattern %r line %r flags %d: rstr_find gives %d %s, the set matcher %d %s' % (c[2], c[4], c[3], ridx, rg, last[0], last[2][:2]),
+                            {'pattern': c[2], 'line': c[4], 'flags': c[3], 'engine': o}))
+            last = None
+            continue
         if c[0] == 'rset':
             compiled = (o == 'ok')
             if not compiled:
@@ -138,6 +158,7 @@ def run_job(job):
             bad.append(('probe:parse', 'unparsable find output %r' % o[:80], {}))
             continue
         n += 1
+        last = (idx, cut, g)
         for key, what in compare(c[1], c[2], c[4], c[3], (idx, cut, g), stats):
             bad.append((key, what, {'pattern': c[2], 'line': c[4], 'flags': c[3], 'engine': o}))
     rep = common.san_report(r)
